@@ -216,7 +216,16 @@ func H_C09(cfg int) {
 		verifCover("after-warmup")
 	}
 	rec := vNewRec()
-	h.dispatch(c, rec, vHdrReq(method, path, hdr))
+	hreq := vHdrReq(method, path, hdr)
+	// a list-valued header may arrive on more than one line: a second Access-Control-Request-Headers line with one name
+	acrh2 := ""
+	if len(acrh) > 0 && nondetBool("second-line") {
+		acrh2 = nondetString("acrh2", ahCap)
+		verifAssume(vAnd(len(acrh2) > 0, !strings.Contains(acrh2, ",")))
+		hreq.Header.Add(HEADER_AccessControlRequestHeaders, acrh2)
+		verifCover("two-header-lines")
+	}
+	h.dispatch(c, rec, hreq)
 	preflight := vAnd(method == "OPTIONS", len(acrm) > 0)
 	// allowed methods: configured, or the methods routable at that URL
 	var allowedM []string
@@ -228,7 +237,7 @@ func H_C09(cfg int) {
 		allowedM = []string{"POST"}
 	}
 	mOK := refMediaIn(allowedM, acrm)
-	hOK := refHeadersAllowed(k.headers, acrh, items)
+	hOK := vAnd(refHeadersAllowed(k.headers, acrh, items), vOr(len(acrh2) == 0, refHeadersAllowed(k.headers, acrh2, 1)))
 	granted := vAnyCors(rec)
 	verifObserveBool("granted", granted)
 	verifObserveInt("status", rec.code())
